@@ -1,7 +1,8 @@
 ----------------------------- MODULE Watermarks -----------------------------
 (* Adding and removing watermarks / stamps (pdfcpu "stamp|watermark add|remove").         *)
 (*                                                                                        *)
-(* Abstract document: np pages, page p has streams[p] content streams and an immutable    *)
+(* Abstract document: np pages in a flat or nested page tree (the state and the operations *)
+(* do not depend on the tree shape), page p has streams[p] content streams and an immutable*)
 (* original content; the state is the set W of pages that carry a watermark.              *)
 (*   Add(kind, onTop, sel, desc) : W' = W \cup Pages(sel)          (content of every page *)
 (*                                 = original content + artifacts on the pages in W')      *)
@@ -15,6 +16,8 @@ EXTENDS Integers, Sequences, FiniteSets, TLC, Json, SelOps
 
 CONSTANTS NPages,     \* page count of the marker document
           StreamPats, \* set of indices into StreamPatterns (content streams per page)
+          Fanouts,    \* document shapes: 0 = flat page tree (all pages are kids of the root), k > 0 = nested page tree whose
+                      \* intermediate /Pages nodes hold k pages each (so a selection may hit only the first or only the last subtree)
           MaxAdds,    \* 1 or 2 add steps
           Kinds,      \* subset of {"text", "image", "pdf"}
           Sels1,      \* indices into Selections usable by the first add
@@ -24,8 +27,8 @@ CONSTANTS NPages,     \* page count of the marker document
           FreeKind2,  \* TRUE: the second add chooses its kind freely, else it is derived from the first add's kind and its own selection
           Emit
 
-VARIABLES pat, ops, W, phase
-vars == <<pat, ops, W, phase>>
+VARIABLES pat, fanout, ops, W, phase
+vars == <<pat, fanout, ops, W, phase>>
 
 AllPages == 1..NPages
 
@@ -58,7 +61,7 @@ RotDesc(k, top, s, i) == ((KindNo(k) + (IF top THEN 3 ELSE 0) + s + 2 * i) % Len
 
 Adds == Len(SelectSeq(ops, LAMBDA o : o.op = "add"))
 
-Init == pat \in StreamPats /\ ops = <<>> /\ W = {} /\ phase = "add"
+Init == pat \in StreamPats /\ fanout \in Fanouts /\ ops = <<>> /\ W = {} /\ phase = "add"
 
 Add == /\ phase = "add" /\ Adds < MaxAdds
        /\ \E top \in BOOLEAN, s \in (IF Adds = 0 THEN Sels1 ELSE Sels2) :
@@ -67,7 +70,7 @@ Add == /\ phase = "add" /\ Adds < MaxAdds
             /\ ops' = Append(ops, [op |-> "add", kind |-> k, ontop |-> top, sel |-> SelRender(Selections[s]), desc |-> DescStr(dsc),
                                    pages |-> SelAsc(PagesOf(s)), fails |-> FALSE, w |-> SelAsc(W \cup PagesOf(s))])
             /\ W' = W \cup PagesOf(s)
-       /\ UNCHANGED <<pat, phase>>
+       /\ UNCHANGED <<pat, fanout, phase>>
 
 RemoveStep(s) ==
   LET hit == W \cap PagesOf(s) IN
@@ -77,11 +80,11 @@ RemoveStep(s) ==
 
 Remove1 == /\ phase = "add" /\ Adds >= 1
            /\ \E s \in SelsR : RemoveStep(s) /\ phase' = (IF s = 1 THEN "done" ELSE "rest")
-           /\ UNCHANGED pat
+           /\ UNCHANGED <<pat, fanout>>
 (* whatever the first removal left is removed by a removal without selection *)
 Remove2 == /\ phase = "rest"
            /\ RemoveStep(1) /\ phase' = "done"
-           /\ UNCHANGED pat
+           /\ UNCHANGED <<pat, fanout>>
 
 Next == Add \/ Remove1 \/ Remove2
 Spec == Init /\ [][Next]_vars
@@ -92,6 +95,6 @@ WInRange  == W \subseteq AllPages
 CleanEnd  == phase = "done" => W = {}
 LastRemoveSound == phase = "done" => \E i \in 1..Len(ops) : ops[i].op = "remove" /\ ~ops[i].fails
 
-Case == [np |-> NPages, streams |-> SubSeq(StreamPatterns[pat], 1, NPages), ops |-> ops]
+Case == [np |-> NPages, fanout |-> fanout, streams |-> SubSeq(StreamPatterns[pat], 1, NPages), ops |-> ops]
 EmitCase == Emit /\ phase = "done" => PrintT(<<"WM", ToJson(Case)>>)
 =============================================================================
